@@ -86,9 +86,10 @@ def nontrivial_key(c):
     return h.hexdigest()
 
 
-def coverage_of(runs, nontrivial=lambda c: len(c.events) >= 5):
+def coverage_of(runs, nontrivial=lambda c: len(c.events) >= 5, key=None):
+    key = key or nontrivial_key
     cases = [c for r in runs for c in r.cases]
-    keys = {nontrivial_key(c) for c in cases if nontrivial(c)}
+    keys = {key(c) for c in cases if nontrivial(c)}
     ops = {}
     results = {}
     calls = 0
@@ -336,6 +337,61 @@ def check_C11(v, tier, seed):
     return cov
 
 
+SYSCTL_PSL = "/proc/sys/fs/protected_symlinks"
+
+
+def check_C15(v, tier, seed):
+    """Runs the uid/mode/owner/position matrix once per sysctl value (the
+    library caches the value per process)."""
+    runs = []
+    skipped = []
+    try:
+        original = open(SYSCTL_PSL).read().strip()
+    except OSError:
+        original = None
+    try:
+        for val in ("0", "1"):
+            try:
+                with open(SYSCTL_PSL, "w") as f:
+                    f.write(val)
+            except OSError as e:
+                if original != val:
+                    skipped.append(f"sysctl={val}: not writable ({e})")
+                    continue
+            runs.append(Run(f"C15-psl{val}", ["c15"]))
+    finally:
+        if original is not None:
+            try:
+                with open(SYSCTL_PSL, "w") as f:
+                    f.write(original)
+            except OSError:
+                pass
+    concrete = set()
+    refused = 0
+    for r in runs:
+        for c in r.cases:
+            msg = oracle_kernel_equiv(c)
+            if " ".join(c.res[:3]) == "err OsError 13":
+                refused += 1
+            if msg:
+                facts = case_facts(c)
+                facts.update({"kind": "oracle", "oracle": msg, "position": c.meta.get("position"),
+                              "psl": c.cfg.get("psl"), "caller": c.meta.get("caller")})
+                v.fail(facts, case_replay(c, "emulated fs.protected_symlinks decision differs from the kernel's (same user, same tree): " + msg))
+                concrete.add((r.name, c.id))
+    broken = generic_tie(v, runs, concrete)
+    cov = coverage_of(runs, nontrivial=lambda c: True,
+                      key=lambda c: (tuple(sorted(c.meta.items())), c.cfg.get("backend"), c.cfg.get("psl")))
+    cov["rule"] = ("directory mode {1777,777,1775,755} x directory owner x link owner x caller uid over {0,1000,2000} x link position "
+                   "{trailing, trailing slash, intermediate} x backend {kernel, emulated} x sysctl {0,1}; every case is compared with "
+                   "openat2(RESOLVE_IN_ROOT) issued by the same user; distinct = distinct matrix cells")
+    cov["exhaustive"] = not skipped
+    cov["skipped"] = skipped
+    cov["tie_mismatches"] = broken
+    cov["lookups_refused_with_EACCES"] = refused
+    return cov
+
+
 def check_C17(v, tier, seed):
     args = ["capi-args"] + (["--thorough"] if tier == "thorough" else [])
     runs = [Run("C17-capi", args)]
@@ -455,6 +511,7 @@ PROPS = {
     "C04": check_C04,
     "C05": check_C05,
     "C11": check_C11,
+    "C15": check_C15,
     "C16": check_C16,
     "C17": check_C17,
 }
